@@ -109,7 +109,7 @@ func NewSource(seed int64) rand.Source {
 	case 1:
 		return constSource(0)
 	case 2:
-		return constSource(1<<63 - 1)
+		return constSource(1<<63 - 1<<10) // largest value whose Float64 is still below 1
 	}
 	return rand.NewSource(r.Seed*1000003 + c)
 }
